@@ -5,15 +5,18 @@ fn run_single<F: VF>(st: usize, op: u16, kind: usize, a: u128, b: u128, outs: &m
             lay::with_int!(kind, T => {
                 to_num_forms::<F, T>(st, 0, x, |t| <T as IntRaw>::raw(t), outs);
             });
+            F::az_to_int(st, 6, x, kind, outs);
         }
         CONV_IF => {
             lay::with_int!(kind, T => {
                 let t = <T as IntRaw>::from_raw(b);
                 from_num_forms::<F, T>(st, 0, t, outs);
             });
+            F::az_from_int(st, 6, kind, b, outs);
         }
         CONV_BF => {
             from_num_forms::<F, bool>(st, 0, b & 1 == 1, outs);
+            F::az_from_bool(st, 6, b & 1 == 1, outs);
         }
         CMP_FI => F::cmp_int(st, x, kind, b, outs),
         CMP_F32 => F::cmp_f32(st, x, f32::from_bits(b as u32), outs),
@@ -30,17 +33,21 @@ fn run_single<F: VF>(st: usize, op: u16, kind: usize, a: u128, b: u128, outs: &m
         }
         F32_TO_FIX => {
             from_num_forms::<F, f32>(st, 0, f32::from_bits(b as u32), outs);
+            F::az_from_f32(st, 6, f32::from_bits(b as u32), outs);
         }
         F64_TO_FIX => {
             from_num_forms::<F, f64>(st, 0, f64::from_bits(b as u64), outs);
+            F::az_from_f64(st, 6, f64::from_bits(b as u64), outs);
         }
         FIX_TO_F32 => {
             to_num_forms::<F, f32>(st, 0, x, |t| t.to_bits() as u128, outs);
-            step!(st, outs, 5, "lossy_from:plain", Out::V(F::lossy_f32(x).to_bits() as u128));
+            step!(st, outs, 6, "lossy_from:plain", Out::V(F::lossy_f32(x).to_bits() as u128));
+            F::az_to_f32(st, 7, x, outs);
         }
         FIX_TO_F64 => {
             to_num_forms::<F, f64>(st, 0, x, |t| t.to_bits() as u128, outs);
-            step!(st, outs, 5, "lossy_from:plain", Out::V(F::lossy_f64(x).to_bits() as u128));
+            step!(st, outs, 6, "lossy_from:plain", Out::V(F::lossy_f64(x).to_bits() as u128));
+            F::az_to_f64(st, 7, x, outs);
         }
         _ => {}
     }
